@@ -162,6 +162,30 @@ func c08Sources(r *drv.Run) ([][]byte, map[string]int) {
 			add("escape-continuation", "find all @/\\"+pair+"z/")
 		}
 	}
+	// very long sources (2^16 .. 2^20 characters) of six shapes, each at four alignments: whatever the lexer keeps
+	// per character (position history, token buffer) is bounded or trimmed somewhere
+	lens := []int{1 << 16, 1 << 18, 1 << 19}
+	if !quick(r) {
+		lens = []int{1 << 16, 1 << 17, 1 << 18, 1 << 19, 1 << 20}
+	}
+	for _, n := range lens {
+		for phase := 0; phase < 4; phase++ {
+			lead := strings.Repeat(" ", phase)
+			add("very-long", lead+"find all "+strings.Repeat("'a' ", n/4))
+			add("very-long", lead+"find all 'a' --("+strings.Repeat("c", n)+")-- 'b'")
+			add("very-long", lead+"find all 'a'"+strings.Repeat(" ", n)+"'b'")
+			add("very-long", lead+"find all '"+strings.Repeat("s", n)+"' 'b'")
+			add("very-long", lead+"find all in "+strings.Repeat("'a', ", n/5)+"'b'")
+			add("very-long", lead+"find all 'a'\n"+strings.Repeat("-- x\n", n/5)+"'b'")
+			add("very-long", lead+"find all "+strings.Repeat("digit letter any ", n/17)+"'b'")
+			add("very-long", lead+"find all "+strings.Repeat("'a' ", n/4)+"'unterminated")
+		}
+		// exactly n characters, ending in a word / a string / a blank
+		for _, tail := range []string{" any", " 'b'", " any "} {
+			head := "find all 'a'"
+			add("very-long", head+strings.Repeat(" ", n-len(head)-len(tail))+tail)
+		}
+	}
 	for i := 0; i < nregex; i++ {
 		rng := gen.Derive(r.Seed, "C08regex", i)
 		n := rng.Intn(14)
@@ -193,7 +217,7 @@ func procProgramSource(rng *gen.Rng, i int) string {
 func C08(r *drv.Run) {
 	r.BuildWorker()
 	srcs, counts := c08Sources(r)
-	r.Rule = "sources: valid programs (hand corpus covering every production, repository examples, generated programs incl. process code) and, for each, every byte prefix and suffix, every one-token deletion/duplication/adjacent swap, every token prefix; random token soups; random bytes biased to lexer-significant characters; regex literals with arbitrary bodies, terminated and not; hostile tails pushed across a multiple of the lexer's 4096-byte read buffer by a long comment, blank run or string; exhaustively every pair of bytes (all 65 536) after `\\x` in both quote styles, after a backslash in a string and after a backslash in a regex literal. Each Compile runs in a killable worker under a lexer-read budget (hook H2), a 30 CPU-second and 1.5 GiB guard; outcome classified: program XOR error, printable non-empty error, no panic, no nil hole anywhere in the AST (reflective walk) or bytecode. Every distinct source text counts once (the valid base programs are the control group that must be accepted)."
+	r.Rule = "sources: valid programs (hand corpus covering every production, repository examples, generated programs incl. process code) and, for each, every byte prefix and suffix, every one-token deletion/duplication/adjacent swap, every token prefix; random token soups; random bytes biased to lexer-significant characters; regex literals with arbitrary bodies, terminated and not; hostile tails pushed across a multiple of the lexer's 4096-byte read buffer by a long comment, blank run or string; sources of 2^16 .. 2^19 (thorough: 2^20) characters in eight shapes at four alignments and of exactly 2^k characters; exhaustively every pair of bytes (all 65 536) after `\\x` in both quote styles, after a backslash in a string and after a backslash in a regex literal. Each Compile runs in a killable worker under a lexer-read budget (hook H2), a 30 CPU-second and 1.5 GiB guard; outcome classified: program XOR error, printable non-empty error, no panic, no nil hole anywhere in the AST (reflective walk) or bytecode. Every distinct source text counts once (the valid base programs are the control group that must be accepted)."
 	r.Assumptions = []string{
 		"bounded time/memory is decided as: lexer reads <= 64*(len+8)+4096 (hook count), <= 30 CPU-seconds and <= 1.5 GiB per Compile call",
 		"a hole is a nil pointer or nil interface reachable from the returned AST, or nil bytecode",
